@@ -384,7 +384,7 @@ def nontrivial(defn: dict) -> bool:
 
 def features(defn: dict, acc: dict | None = None) -> dict:
     acc = acc if acc is not None else {}
-    for k in ("defaults", "hooks", "old", "sub", "mixed", "extends"):
+    for k in ("defaults", "hooks", "old", "sub", "mixed", "extends", "wrapped", "kw_only"):
         if defn.get(k):
             acc[k] = 1
     for i, f in enumerate(defn["fields"]):
@@ -644,7 +644,7 @@ def _hook_namespace(defn: dict) -> dict:
     return ns
 
 
-def _make_init(names: list[str], defaults: dict, target: str) -> Any:
+def _make_init(names: list[str], defaults: dict, target: str, wrapped: bool = False) -> Any:
     """
     ``def __init__(self, a, b=<default object>, **kwargs): VariablePayload.__init__(self, a, b, **kwargs)`` -
     the way the library's own tests give an interpreted definition default values. Defaults are bound by
@@ -656,6 +656,15 @@ def _make_init(names: list[str], defaults: dict, target: str) -> Any:
     src = f"def __init__(self, {params}, **_kw):\n    _VP.__init__(self, {', '.join(names)}, **_kw)\n"
     ns = {"_d": [defaults[n] for n in order], "_VP": VariablePayload}
     exec(compile(src, f"<c20 {target}>", "exec"), ns)  # noqa: S102
+    if wrapped:
+        # an ordinary decorator around the constructor (functools.wraps keeps the signature visible)
+        import functools
+        inner = ns["__init__"]
+
+        @functools.wraps(inner)
+        def __init__(*args: Any, **kwargs: Any) -> None:
+            return inner(*args, **kwargs)
+        return __init__
     return ns["__init__"]
 
 
@@ -718,7 +727,7 @@ class Forms:
         ns.update(_hook_namespace(defn))
         dflt = default_values(defn, inner_forms.mk)
         if dflt:
-            ns["__init__"] = _make_init(defn["names"], dflt, defn["name"])
+            ns["__init__"] = _make_init(defn["names"], dflt, defn["name"], wrapped=bool(defn.get("wrapped")))
         bases: tuple = (VariablePayload,)
         if defn.get("old"):
             bases = (VariablePayload, _make_old_base(defn, defn["old"], fmts))
@@ -777,7 +786,9 @@ class Forms:
                     hash(dflt[n])
                 except TypeError:
                     raise Inexpressible("unhashable default") from None
-                specs.append((n, t, dataclasses.field(default=dflt[n])))
+                # kw_only: the defaulted fields are declared keyword-only (``field(kw_only=True)`` / ``_: KW_ONLY``)
+                specs.append((n, t, dataclasses.field(default=dflt[n], kw_only=True) if defn.get("kw_only")
+                              else dataclasses.field(default=dflt[n])))
             else:
                 specs.append((n, t))
         mod = _scratch_module()
@@ -834,6 +845,9 @@ def observe(forms: Forms, defn: dict, inst: dict, exp: dict) -> dict:
     try:
         values = given_values(defn, inst, forms.mk)
         npos = min(inst["npos"], len(values))
+        if defn.get("kw_only"):
+            # the defaulted fields are passed by keyword, to every form alike
+            npos = min(npos, len(names) - len(defn.get("defaults", [])))
         pos, kw = values[:npos], dict(zip(names[npos:len(values)], values[npos:]))
         obj = cls(*pos, **kw)
     except Exception as e:  # rejected
@@ -1255,6 +1269,10 @@ def _definition_strategy(plain_formats: list[str]):
             defn["native"] = 1
         if len(fields) > 1 and draw(st.integers(0, 2)) == 0:
             defn["extends"] = [draw(st.integers(1, len(fields) - 1)), draw(st.integers(0, 1))]
+        if defaults and draw(st.integers(0, 3)) == 0:
+            defn["wrapped"] = 1
+        if defaults and draw(st.integers(0, 3)) == 0:
+            defn["kw_only"] = 1
         return defn
 
     @st.composite
